@@ -39,3 +39,32 @@ for d in sorted(glob.glob(os.path.join(ROOT, "seeded", "*"))):
         own += " (missed by the first version; caught after strengthening)"
     others = ", ".join("%s: %s" % (k, v) for k, v in mat.items() if k != m["property"]) or "-"
     print("| %s | %s | %s | %s | %s |" % (sid, m.get("summary", "")[:160].replace("|", "/"), m.get("needs_to_manifest", "")[:140].replace("|", "/"), own, others))
+
+print()
+print("### As built, per property (the notes in `design/Cxx.md` supersede the round-0 plan in §4 where they differ)")
+print()
+import importlib, sys
+sys.path.insert(0, ROOT)
+for p in props:
+    pid = p["id"]
+    try:
+        mod = importlib.import_module("props." + pid)
+    except Exception as ex:
+        continue
+    mf = getattr(mod, "MANIFEST", None)
+    if not mf:
+        continue
+    ev = {}
+    f = os.path.join(ROOT, "evidence", pid + ".json")
+    if os.path.exists(f):
+        ev = json.load(open(f))["coverage"]
+    req = getattr(mod, "REQUIRED_THEOREMS", [])
+    part = [t.split(".")[-1] for t in ev.get("partial_theorems", [])]
+    print("* **%s** — %s  " % (pid, p["title"]))
+    print("  modules: %s; required theorems: %s%s%s; notes: `design/%s.md`.  " % (
+        ", ".join("`%s`" % m.replace("CoapVerif.", "") for m in mod.LEAN_MODULES),
+        ", ".join("`%s`" % r for r in req[:14]) + (" … (+%d)" % (len(req) - 14) if len(req) > 14 else ""),
+        ("; `_partial`: " + ", ".join("`%s`" % x for x in part)) if part else "",
+        ("; rests on: " + ", ".join("%s.%s" % (ns.split(".")[-1], n) for ns, ns_names in getattr(mod, "REQUIRED_ELSEWHERE", {}).items() for n in ns_names)) if getattr(mod, "REQUIRED_ELSEWHERE", None) else "",
+        pid))
+    print("  claim: %s" % mf["text"][:600].replace("\n", " ") + ("…" if len(mf["text"]) > 600 else ""))
